@@ -141,7 +141,7 @@ def scenarios(ctx):
     for mode in ('sync', 'async'):
         out.append(Std('reenter-connected-disconnect-%s' % mode, profile='pubsub', mode=mode,
                        init=(('connect', 0, False, 2, 4), ('connack', 0, 0, False), ('setwin', 0, 2)),
-                       reenter=('onMqttConnectionMade>disconnect',), reconnects=[(False, 2, 4)], pub_qos=(1, 2), closing=False,
+                       reenter=('onMqttConnectionMade@1>disconnect',), reconnects=[(False, 2, 4)], pub_qos=(1, 2), closing=False,
                        budgets=dict(pub=2, sub=1, ack=1, lose=1, rebuild=1, connect=1, connack=1, tick=3)))
     return out
 
